@@ -2,6 +2,7 @@ import ZkVerif.Model.Pedersen
 import ZkVerif.Model.Rng
 import ZkVerif.Model.PS
 import ZkVerif.Model.Schnorr
+import ZkVerif.Model.Arith
 import ZkVerif.Exec.Fq
 import ZkVerif.Exec.Proto
 import ZkVerif.Exec.Ops
